@@ -434,7 +434,7 @@ impl Entropy for Kumaraswamy {
     fn entropy(&self) -> f64 {
         // Harmonic function for reals see:
         // https://en.wikipedia.org/wiki/Harmonic_number#Harmonic_numbers_for_real_and_complex_values
-        let hb = self.b.digamma() + EULER_MASCERONI;
+        let hb = (self.b + 1.0).digamma() + EULER_MASCERONI;
         (1.0 - self.a.recip()).mul_add(hb, 1.0 - self.b.recip()) - self.ab_ln()
     }
 }
